@@ -185,7 +185,7 @@ pub fn gen_program(r: &mut ChaChaRng, m: i64, kind: &str, id: String) -> Program
             }
             expect_v = "reject".into();
         }
-    } else if kind == "honest" || kind == "tamper" {
+    } else if kind == "honest" || kind == "tamper" || kind == "tamper2" {
         expect_v = "ok".into();
     }
     let cap_need = pad2(n);
@@ -201,6 +201,17 @@ pub fn gen_program(r: &mut ChaChaRng, m: i64, kind: &str, id: String) -> Program
         _ => cap_need,
     };
     let mut tamper = vec![];
+    if kind == "tamper2" {
+        // the second-phase commitments: identity placeholders in one-phase circuits, where nothing but the verifier's
+        // own weights and transcript appends accounts for them
+        let f = ["AI2", "AO2", "S2"][r.gen_range(0..3)];
+        tamper.push(match r.gen_range(0..3) {
+            0 => Edit::Setpt { f: f.into(), v: nzval(r, m) },
+            1 => Edit::Addpt { f: f.into(), v: nzval(r, m) },
+            _ => Edit::Swap { f: f.into(), g: ["AI1", "T1", "S1"][r.gen_range(0..3)].into() },
+        });
+        expect_v = "reject".into();
+    }
     if kind == "tamper" {
         let k = pad2(n).trailing_zeros() as usize;
         let scal = ["tx", "txb", "eb", "a", "b"];
